@@ -153,6 +153,17 @@ def case_joinpath(acc, auth, segs):
     return run(acc, "joinpath", (auth, segs), lambda: impl.URL("/r/s").joinpath(*segs), lambda: "/r/s/" + tail, False)
 
 
+def case_joinpath_enc(acc, auth, segs):
+    """joinpath(..., encoded=True): the new segments are taken verbatim, the merge with the base path still removes dot segments."""
+    if not segs or any("%" in x for x in segs):
+        return None   # an escaped dot is not a dot segment of pre-encoded text, and would become one on re-parsing
+    kept = [a for i, a in enumerate(segs) if a != "" or i == len(segs) - 1]
+    tail = "/".join(kept)
+    if auth:
+        return run(acc, "joinpath_enc", (auth, segs), lambda: impl.URL("http://h.com/r/s/").joinpath(*segs, encoded=True), lambda: rds_auth("/r/s/" + tail), True)
+    return run(acc, "joinpath_enc", (auth, segs), lambda: impl.URL("/r/s").joinpath(*segs, encoded=True), lambda: "/r/s/" + tail, False)
+
+
 def case_join(acc, base, segs):
     """base 'auth' only: RFC merge + remove_dot_segments; the reference path is rootless or rooted by its first segment."""
     p = "/".join(segs)
@@ -166,10 +177,10 @@ def case_join(acc, base, segs):
 
 
 CASES = {"ctor": case_ctor, "build": case_build, "with_path": case_with_path, "truediv": case_truediv,
-         "joinpath": case_joinpath, "join": case_join}
+         "joinpath": case_joinpath, "joinpath_enc": case_joinpath_enc, "join": case_join}
 
 ENTRY = ([("ctor", f) for f in ("auth", "netpath", "rooted", "rootless", "opaque", "opaque_rooted")]
-         + [(n, a) for n in ("build", "with_path", "truediv", "joinpath") for a in (True, False)]
+         + [(n, a) for n in ("build", "with_path", "truediv", "joinpath", "joinpath_enc") for a in (True, False)]
          + [("join", b) for b in ("auth", "auth_slash", "auth_empty")])
 
 
